@@ -1,6 +1,7 @@
 mod c01;
 mod c02;
 mod c03;
+mod c06;
 mod c11;
 mod codec;
 mod fault;
@@ -101,6 +102,11 @@ fn main() {
         "C05" => {
             let mut rep = Report::new("C05", "valid streams of every format (XZ single/multi, LZIP, LZMA2, LZMA x4) x every truncation point x an I/O error injected at every read-call index x random short-read/Interrupted scripts; writers x short-writing/Interrupted sinks x sink errors at random write-call indices; all cases non-trivial; distinct = distinct stream / writer case");
             fault::run(&mut rep, &mut rng, thorough);
+            rep
+        }
+        "C06" => {
+            let mut rep = Report::new("C06", "hostile inputs to every decoder: XZ/LZIP files mutated structure-aware (CRC-32 fields recomputed so the damage reaches deep parsing), raw LZMA with arbitrary props/dict/size, LZMA2 chunk soup and mutated streams (also through the MT readers), BCJ/Delta readers over random bytes with arbitrary offsets, BCJ2 with four arbitrary streams, random bytes; each case measured: panic, wall time, peak heap (counting allocator); non-trivial = all; distinct = decoder x shape class");
+            c06::run(&mut rep, &mut rng, thorough);
             rep
         }
         "C12" => {
